@@ -202,6 +202,7 @@ def c08(run):
             g.fsk_rx(q(run, 40, 600)); g.fsk_tx(q(run, 40, 600)); g.lora_rx(q(run, 40, 500)); g.lora_tx(q(run, 15, 200))
             g.fsk_fault(q(run, 15, 200)); g.beacon([5, 100, 1000, 3000, 70000]); g.hist(q(run, 40, 600), (5, 50))
             g.stale_length(q(run, 30, 300), cap)
+            g.oversize_fixed(q(run, 24, 240), cap)
         run.cov['caps'] = run.cov.get('caps', []) + [cap]
         divs += C.execute(run, gen_small, variants=('cap%d' % cap,), model_args=('--cap', str(cap)), monitor=M.mon_aborts, corpus=False)
     return divs
@@ -244,7 +245,30 @@ def c10(run):
     def gen(g):
         g.exh_setters(q(run, [0x00, 0xff], PRIORS_Q))
         g.hist(q(run, 300, 4000))
-    return C.execute(run, gen, monitor=M.mon_rejects)
+    return C.execute(run, gen, monitor=chain(M.mon_rejects, mon_refused))
+
+def mon_refused(run, script, il, iab, ml):
+    """C10, converse clause: a call that the specification (the model, for which C10/C09 are proved) accepts must not be
+    refused by the real driver with an argument or state error while the bus is healthy"""
+    a = [l for l in il if not l.startswith('!')]
+    for x, y in zip(a, ml):
+        if M.is_op(x) and M.is_op(y):
+            fx, fy = M.fields(x), M.fields(y)
+            if fx.get('op') != fy.get('op') or '!' in fx.get('spi', '') or '!' in fy.get('spi', ''):
+                continue
+            rx, ry = fx.get('rc', '').split(',')[0], fy.get('rc', '').split(',')[0]
+            if ry == '0' and rx in ('102', '103'):
+                run.cov['monitor_checks'] += 1
+                run.violation('`%s` was refused (rc=%s) although its arguments are documented-valid and its modulation is active (the specification accepts it)' % (script_line_of(script, a, x), rx), script, {'call': x[:300]})
+                return
+            if x != y:
+                return   # after a divergence the two sides are no longer in the same state
+
+def script_line_of(script, a, x):
+    try:
+        return M.script_op_at(script, [l for l in a if not l.startswith('#')].index(x))
+    except Exception:
+        return M.fields(x).get('op', '?')
 
 def c11(run):
     def gen(g):
@@ -337,6 +361,7 @@ def c16(run):
 def c17(run):
     def gen(g):
         g.attach()
+        g.attach_fsk(q(run, 40, 600))
         for _ in range(q(run, 5, 60)):
             g.attach()
     return C.execute(run, gen, monitor=chain(M.mon_expect, mon_c17), cone={'create', 'irq'})
@@ -376,6 +401,18 @@ def c18(run):
     size = C.sh(['size', obj]).stdout.splitlines()[-1].split()
     if int(size[1]) != 0 or int(size[2]) != 0:
         run.violation('library object has data=%s bss=%s' % (size[1], size[2]), ['# size sx127x.o'])
+    # the bundled SPI backends are part of the library: no writable static data there either
+    H = os.path.join(C.ROOT, 'harness')
+    for name, extra in (('sx127x_linux_spi', ['-include', 'arpa/inet.h']), ('sx127x_esp_spi', ['-I', os.path.join(H, 'esp_stub')])):
+        o = os.path.join(d, name + '.o')
+        r = C.sh(['gcc', '-std=gnu99', '-O1', '-w', '-c', '-I', os.path.join(C.REPO, 'include')] + extra + [os.path.join(C.REPO, 'src', name + '.c'), '-o', o])
+        run.cov['monitor_checks'] += 1
+        if r.returncode != 0:
+            run.violation('bundled backend %s.c does not compile against the stubs: %s' % (name, r.stderr[-200:]), ['# build ' + name])
+            continue
+        bad = [l for l in C.sh(['nm', o]).stdout.splitlines() if re.search(r' [bBdDcCsSgG] ', l)]
+        if bad:
+            run.violation('bundled backend %s.o has writable global/static data: %s' % (name, '; '.join(bad[:4])), ['# nm ' + name + '.o'] + bad)
     def gen(g):
         g.hist(q(run, 150, 2000)); g.lora_rx(q(run, 20, 300)); g.lora_tx(q(run, 20, 300)); g.fsk_rx(q(run, 20, 300)); g.fsk_tx(q(run, 20, 300))
         g.hop(q(run, 10, 100))
@@ -616,6 +653,10 @@ def c20(run):
                 expect('BitRate', '%f' % (32000000.0 / div))
             expect('Fdev', '%f' % ((32000000.0 / (1 << 19)) * (((data[4] & 0x3f) << 8) | data[5])))
             expect('PayloadLength', str(((data[0x31] & 7) << 8) | data[0x32]))
+            for key, reg in (('RxBw', 0x12), ('AfcBw', 0x13)):
+                mant = {0: 16, 1: 20, 2: 24}.get((data[reg] >> 3) & 3)
+                if mant:   # datasheet: FXOSC / (RxBwMant * 2^(RxBwExp + 2)), the same for FSK and OOK as the driver encodes it
+                    expect(key, '%f' % (32000000.0 / (mant * (1 << ((data[reg] & 7) + 2)))))
             expect('PacketFormat', 'Variable' if data[0x30] & 0x80 else 'Fixed')
             expect('CrcOn', '1' if data[0x30] & 0x10 else '0')
             expect('PreambleSize', str((data[0x25] << 8) | data[0x26]))
